@@ -58,6 +58,8 @@ def run_one(prop_id, job, scratch, timeout):
     env["BEC2FORMAT_VERIF"] = "1"
     env["VERIF_SCRATCH"] = scratch
     env["PYTHONUTF8"] = "1"
+    for k_, v_ in (job.get("env") or {}).items():
+        env[k_] = v_
     cmd = [PY, "-B", "-m", "bvm.shard", prop_id, spec_file, out_file]
     if job.get("dev"):
         cmd = [PY, "-B", "-X", "dev", "-m", "bvm.shard", prop_id, spec_file, out_file]
@@ -121,7 +123,11 @@ def main(argv=None):
                     if j["name"] == nm:
                         j2 = dict(j, name=nm + "_O", optimize=True)
                         jobs.append(j2)
+        if os.environ.get("BVM_ONLY"):
+            jobs = [j for j in jobs if any(j["name"].startswith(x) for x in os.environ["BVM_ONLY"].split(","))]  # debugging aid
         timeout = getattr(mod, "TIMEOUT", {}).get(tier, 3600 if tier == "quick" else 6 * 3600)
+        if os.environ.get("BVM_TIMEOUT"):
+            timeout = int(os.environ["BVM_TIMEOUT"])
         results = []
         with concurrent.futures.ThreadPoolExecutor(max_workers=args.jobs) as ex:
             futs = [ex.submit(run_one, prop_id, j, scratch, timeout) for j in jobs]
